@@ -25,6 +25,8 @@ PROPS["C06"] = {
         "RCE.Props.C06.shift_east_source_eq",
         "RCE.Props.C06.shift_west_source_eq",
         "RCE.Props.C06.trim_edges_source_eq",
+        "RCE.Props.C06.rook_fill_source_eq",
+        "RCE.Props.C06.bishop_fill_source_eq",
         "RCE.Props.C06.rook_attacks_exact",
         "RCE.Props.C06.bishop_attacks_exact",
         "RCE.Props.C06.queen_attacks_exact",
